@@ -27,20 +27,32 @@ import numpy as np
 LEVEL = "proof"
 MANIFEST_ENTRY = {
     "category": "proof",
-    "text": "Lean 4 theorems over an executable heap-based state machine of vector.py (cells hold references; "
-            "aliasing is modelled): structural invariant (2-D cells with one column per field, unique fields, "
-            "units aligned, cell count = shape product, valid references) preserved by every operation and hence "
-            "over every operation history; flatten/set_flattened laws incl. write-back identity under aliasing; "
-            "copy freshness and frame (an op on X only touches arrays in X); add/remove-fields round trip; "
-            "addressed-cell specification of slicing for any number of fixed dimensions. The model is tied to the "
-            "code on every run by a step-by-step differential run with alias fingerprints, and an independent "
-            "pure-Python reference oracle evaluates the property on the real class (failing-input search).",
-    "note": "Trusted: Lean kernel + propext/Classical.choice/Quot.sound; hand model validated by sampled "
-            "correspondence only; NumPy semantics (hstack, fancy column selection, deepcopy memo, in-place column "
-            "assignment, dtype float64 only) are modelled, not verified; zero fixed dimensions, more indices than "
-            "dimensions, non-float dtypes, ndarray operands of field arithmetic and the shape/fields/units "
-            "property setters are outside the model.",
-    "technique": "Lean 4 proof (invariant induction over op lists on a heap model) + model-vs-implementation "
+    "text": "Lean 4 theorems over an executable heap-based state machine of vector.py + validate_vector_* (cells hold "
+            "references, so aliasing between cells, vectors and the caller is modelled; fancy-assignment loops that raise "
+            "half-way leave their partial effect): (1) invariant_step / invariant_all_histories / structure_all_histories: "
+            "after ANY op list every vector has unique fields, one unit per field, one cell per index of a positive shape, "
+            "and every populated cell refers to a live rectangular 2-D array with exactly one column per field; "
+            "(2) flatten_spec, writeback_identity (set_flattened(flatten()) is the identity on every state, also with "
+            "aliased cells), fieldOp_state, flatten_after_setFlattened (flatten after set_flattened xs = xs when no array "
+            "sits in two cells); (3) frame_fieldOp / frame_setFlattened: an op on X writes only to arrays that sit in X; "
+            "(4) copy_fresh (copy succeeds on every reachable state, same schema and cell values, every array and the "
+            "metadata dict newly allocated, nothing old modified), fromShape_fresh, copy_independent; add_remove_fields "
+            "(add_fields then remove_fields of the same names restores schema and cell values); (5) slice_spec / "
+            "getData_spec: for ANY number of fixed dimensions the cell of v[idx] at output coordinate o is the very "
+            "reference stored at the source coordinate the index expression assigns to o (row-major offsets on both "
+            "sides; ints, slices, lists, negative wrap, short index tuples). The model is tied to the code on every "
+            "run by a step-by-step differential run of random op histories (full state compared exactly after every "
+            "step, object identity included), and an independent pure-Python reference oracle evaluates the property "
+            "on the real class (failing-input search).",
+    "note": "Trusted: Lean kernel + propext/Classical.choice/Quot.sound; hand model validated by sampled correspondence "
+            "only; NumPy semantics (hstack, fancy column selection, deepcopy memo, in-place column assignment) modelled "
+            "not verified; float64 cells only (integer dtypes truncate in field arithmetic: not modelled); scalar "
+            "operands of field arithmetic; zero fixed dimensions, index tuples longer than the number of dimensions "
+            "and the shape/fields/units/name property setters are outside the model (the `fields` setter does not "
+            "check the column count — not part of the stated operation alphabet, reported). Assignment semantics "
+            "(k-th value to k-th addressed cell) is checked by correspondence and oracle, not stated as a theorem.",
+    "technique": "Lean 4 proof (invariant induction over op lists on a heap model; relational specs for deepcopy / "
+                 "column rebuild; row-major bijection lemma for N-D addressing) + model-vs-implementation "
                  "correspondence with alias fingerprints + reference-model predicate",
 }
 RULE = ("random op sequences on a world of several vectors sharing arrays; a case is one op applied to a state; "
@@ -75,8 +87,14 @@ def fstr(x):
     return str(x.numerator) if x.denominator == 1 else f"{x.numerator}/{x.denominator}"
 
 
+def qstr(x):
+    """exact rational text of a float ('n' or 'n/d', lowest terms) — same format as the Lean driver"""
+    n, d = float(x).as_integer_ratio()
+    return str(n) if d == 1 else f"{n}/{d}"
+
+
 def rows_of(a):
-    return [[fstr(Fraction(float(x))) for x in row] for row in a]
+    return [[qstr(x) for x in row] for row in a.tolist()]
 
 
 def mk_array(ncols, rows):
@@ -718,7 +736,7 @@ def compare_state(ctx, tie, w, mobs, case, note):
         md = mobs["metas"][mv["meta"]]
         if sorted(map(tuple, md)) != sorted((k, x) for k, x in v.metadata.items()):
             return bad(f"vec{vid}.metadata", md, dict(v.metadata))
-        flat = [[fstr(Fraction(float(x))) for x in np.asarray(v[f].flatten())] for f in v.fields]
+        flat = [[qstr(x) for x in np.asarray(v[f].flatten()).tolist()] for f in v.fields]
         if mv["flat"] != flat:
             return bad(f"vec{vid}.flatten(field)", mv["flat"], flat)
         allr = rows_of(np.asarray(v.flatten()))
@@ -1051,6 +1069,16 @@ def run_ops(ctx, drv, ops_iter, record):
             ctx.dist["skipped:unresolvable"] += 1
             continue
         done.append(op)
+        if op["op"] == "alloc":
+            # the caller creates an array: nothing observable changes in any vector; the new pool entry is
+            # paired and its contents compared at the next full comparison
+            apply_real(w, op)
+            ctx.dist["op:alloc"] += 1
+            if drv is not None:
+                m = drv.ask(dict(op, obs=False))
+                if "r" not in m:
+                    raise RuntimeError(f"driver error {m} on {op}")
+            continue
         case = {"ops": list(done)}
         try:
             before = snapshot(w)
@@ -1102,7 +1130,7 @@ def run(ctx):
     from qv.driver import Driver
     drv = Driver("C11")
     try:
-        nseq = ctx.n(700, 6000)
+        nseq = ctx.n(700, 3000)
         maxops = 40 if ctx.thorough() else 20
         for sidx in range(nseq):
             rng = ctx.rng.fork(sidx)
